@@ -22,7 +22,7 @@ ASSUMPTIONS = ["64-bit int; segments < 2^32 bytes, segment count < 2^32; bytes a
                "a failed pointer-writing / allocating op ends the compared run (the model keeps no state for a failed op)",
                "fuel of write_ptr/copy_struct: theorems are about Ok results, which are never produced by fuel exhaustion"]
 TECHNIQUE = "Coq proof over an executable model + extracted-model/implementation differential run"
-LEVEL_TEXT = ('Proof for the builder incl. cross-message copies + differential run for everything. C05_heap_inv_sublang (HeapOps.v, HeapCopy.v, HeapSteps.v, HeapValid.v): every reachable state of every program in every arena configuration with a root word satisfies valid_message = VOk (ghost object table; every pool handle is a view of it; hinv preserved by every op incl. all copy paths of writePtr/copyStruct, C05_copy_all; hinv implies valid_message). hinv (HeapInv.v): every pointer slot and the root hold the null word, the inline empty struct, a capability pointer or exactly the words the placement switch stores for one table object (structs, lists of every kind incl. composite lists with their tag word), regions inside their segments and pairwise disjoint. Also proved for all arenas/capacities and ALL ops incl. cross-message: allocated regions are zeroed, aligned, inside len<=cap and pairwise disjoint; segments stay word aligned and only grow; every placed pointer resolves with well-formed landing pads; placed_struct_is_spec_valid; heap_inv_partial. All ops are also checked by executing the extracted valid_message + spec tree on the real Marshal bytes of every program.')
+LEVEL_TEXT = ('Proof for the builder incl. cross-message copies + differential run for everything. C05_heap_inv_tables (HeapOps.v, HeapCopy.v, HeapSteps.v): every reachable state of every program in every arena configuration with a root word has a ghost object table and pad table satisfying hinv (every pool handle is a view of the table; hinv preserved by every op incl. all copy paths of writePtr/copyStruct, C05_copy_all); corollary C05_heap_inv_sublang (HeapValid.v): hinv implies valid_message = VOk, a structural predicate (see note). hinv (HeapInv.v): every pointer slot and the root hold the null word, the inline empty struct, a capability pointer or exactly the words the placement switch stores for one table object (structs, lists of every kind incl. composite lists with their tag word), regions inside their segments and pairwise disjoint. Also proved for all arenas/capacities and ALL ops incl. cross-message: allocated regions are zeroed, aligned, inside len<=cap and pairwise disjoint; segments stay word aligned and only grow; every placed pointer resolves with well-formed landing pads; placed_struct_is_spec_valid; heap_inv_partial. All ops are also checked by executing the extracted valid_message + spec tree on the real Marshal bytes of every program.')
 LEVEL_NOTE = ("HEADLINE THEOREM C05_heap_inv_tables: in every reachable state (all arena configurations with a root word, < 2^32 "
               "segments) there are an object table and a pad table such that every pointer slot and the root hold the null word, "
               "the inline empty struct, a capability pointer or exactly the placement words for ONE table object, and objects, "
